@@ -376,6 +376,29 @@ func main() {
 		n = 6000
 	}
 	all := append(append([]string{}, kinds...), "nilscript", "nonp2pkh", "inscription", "exact", "zerovalue", "zerovalue")
+	// long histories: a wallet of many small coins handed out one (or two) per call: Fund keeps asking as long as the
+	// supplier keeps answering and a deficit remains, however many calls that takes
+	longs := []int{131}
+	if thorough {
+		longs = []int{131, 200, 300}
+	}
+	for li, n := range longs {
+		q := feegen.Quotes[(li+2+int(c.Seed))%len(feegen.Quotes)]
+		st := startTx(r, 0, q)
+		if len(st.Outs) > 0 {
+			st.Outs[0].Sats = 20000000
+		}
+		out := feegen.SumOut(st).Uint64()
+		var hist []response
+		for i := 0; i < n; i++ {
+			us := []utxo{mkU(r, scale(q)+out/uint64(n-9)+uint64(r.Intn(5)))}
+			if i%50 == 7 {
+				us = append(us, mkU(r, scale(q)+1))
+			}
+			hist = append(hist, response{Kind: "batch", Tag: "long", Utxos: us})
+		}
+		fundCase("long-history", st, q, hist, true)
+	}
 	// large batches: the number of inputs crosses 252 / 253 (its varint grows) within a batch, between two batches, and
 	// with a batch of more than 253; every UTXO is worth a little more than it costs, so each batch leaves a deficit
 	for bi, sizes := range [][]int{{126, 126, 3, 3, 3}, {200, 52, 1, 1, 1}, {252, 1, 1, 1}, {253, 1, 1}, {100, 100, 100, 3}, {260, 2, 2}} {
@@ -445,6 +468,6 @@ func main() {
 		}
 		fundCase(kind, s, q, hist, hyp)
 	}
-	c.Stats.Rule = "exhaustive supplier histories of length 0..4 (thorough 0..6) over the response kinds {empty batch, one under-funding UTXO, one over-funding UTXO, 2..3 UTXOs, ErrNoUTXO (wrapped), other error} (thorough: again to length 4 with a batch carrying a 31/33/0-byte txid in the middle as a seventh kind), each with a start transaction (no inputs / a small unsigned input / nothing at all / already covered / data output and a signed input / three payments) and a quote (9 quotes: 1/20..50 sat/byte, unequal std/data) in rotation; UTXO values scale with the cost of an input at the quote; plus six histories of large batches (the input count crossing 252/253 inside a batch, between batches, and by a batch of 260), random histories of length 0..6 adding zero-value UTXOs, nil / non-P2PKH / inscription locking scripts, bad txids and a UTXO worth the exact deficit +-1, missing fee type, zero denominator, nil previous script in the start transaction, outputs near 2^64. A used-up history answers ErrNoUTXO. distinct = distinct (start tx, quote, consumed part of the history); non-trivial = the supplier was called at least once"
+	c.Stats.Rule = "exhaustive supplier histories of length 0..4 (thorough 0..6) over the response kinds {empty batch, one under-funding UTXO, one over-funding UTXO, 2..3 UTXOs, ErrNoUTXO (wrapped), other error} (thorough: again to length 4 with a batch carrying a 31/33/0-byte txid in the middle as a seventh kind), each with a start transaction (no inputs / a small unsigned input / nothing at all / already covered / data output and a signed input / three payments) and a quote (9 quotes: 1/20..50 sat/byte, unequal std/data) in rotation; UTXO values scale with the cost of an input at the quote; plus a history of 131 calls (thorough: also 200 and 300) with one small UTXO each (covered only near the end), six histories of large batches (the input count crossing 252/253 inside a batch, between batches, and by a batch of 260), random histories of length 0..6 adding zero-value UTXOs, nil / non-P2PKH / inscription locking scripts, bad txids and a UTXO worth the exact deficit +-1, missing fee type, zero denominator, nil previous script in the start transaction, outputs near 2^64. A used-up history answers ErrNoUTXO. distinct = distinct (start tx, quote, consumed part of the history); non-trivial = the supplier was called at least once"
 	c.Finish()
 }
